@@ -16,6 +16,9 @@ Proof.
   change rc_start with std_start. change rc_end with std_end.
   match goal with |- context [(?c =? 0) || (?r =? 0)] => destruct ((c =? 0) || (r =? 0)) end;
   [reflexivity|].
+  (* the end == 0 guard (fix D100) *)
+  match goal with |- context [(?c =? 0) || (?r =? 0)] => destruct ((c =? 0) || (r =? 0)) end;
+  [reflexivity|].
   repeat (rewrite bind_assoc; py_bind_ext; [reflexivity|]).
   py_simpl. destruct oi; reflexivity.
 Qed.
